@@ -78,6 +78,20 @@ static int cmp_m10(const void *a, const void *b) {   /* (v % 10, v) lexicographi
     if (x != y) return verif_mag(x < y ? -1 : 1);
     return cmp_asc(a, b);
 }
+/* a total PREORDER with ties: only the key v % 10 is compared.  qsort is not stable by contract, so
+ * the order among records with equal keys is unspecified: the obs of a `sort cmp=k10` is printed
+ * tie-invariantly (key sequence in array order + sorted multiset of the records); the exact order is
+ * compared in phys (L3) only and rests on this glibc's qsort being a stable merge sort. */
+static int cmp_k10(const void *a, const void *b) {
+    unsigned x = mod_small(a, cur_dl, 10), y = mod_small(b, cur_dl, 10);
+    return x == y ? 0 : verif_mag(x < y ? -1 : 1);
+}
+static int cmp_plain_asc(const void *a, const void *b) {   /* for the shim's own multiset print */
+    const uint8_t *x = a, *y = b;
+    for (size_t j = cur_dl; j-- > 0;) if (x[j] != y[j]) return x[j] < y[j] ? -1 : 1;
+    return 0;
+}
+static int tie_slot = -1;          /* slot whose content the current op must print tie-invariantly */
 static bool pred_even(const uint8_t *e) { cbs_add(dec(e, cur_dl)); return e[0] % 2 == 0; }
 static bool pred_mod3(const uint8_t *e) { cbs_add(dec(e, cur_dl)); unsigned s = 0; for (size_t j = 0; j < cur_dl; j++) s += e[j]; return s % 3 == 0; }
 static bool pred_all(const uint8_t *e)  { cbs_add(dec(e, cur_dl)); return true; }
@@ -103,6 +117,23 @@ static void obs_all(void) {
         CC_ArraySized *a = ar[k]; if (!a) continue;
         size_t n = cc_array_sized_size(a), dl = a->data_length;
         uint8_t *out = obuf_new(dl);
+        if (k == tie_slot) {
+            /* keys in array order, then the records as a sorted multiset (still through get_at) */
+            uint8_t *all = __real_malloc(n * dl + 1);
+            o(" k%d=[", k);
+            for (size_t i = 0; i < n; i++) {
+                if (cc_array_sized_get_at(a, i, out) != CC_OK) { o(i ? ",?" : "?"); memset(all + i * dl, 0, dl); }
+                else { o(i ? ",%u" : "%u", mod_small(out, dl, 10)); memcpy(all + i * dl, out, dl); }
+            }
+            size_t keep = cur_dl; cur_dl = dl;
+            qsort(all, n, dl, cmp_plain_asc);
+            cur_dl = keep;
+            o("] m%d=[", k);
+            for (size_t i = 0; i < n; i++) o(i ? ",%s" : "%s", dec(all + i * dl, dl));
+            o("] n%d=%zu", k, n);
+            __real_free(all); __real_free(out);
+            continue;
+        }
         o(" a%d=[", k);
         for (size_t i = 0; i < n; i++) {
             if (cc_array_sized_get_at(a, i, out) != CC_OK) o(i ? ",?" : "?"); else o(i ? ",%s" : "%s", dec(out, dl));
@@ -143,7 +174,7 @@ static void conf_fill(CC_ArraySizedConf *conf, Cmd *c) {
 
 static void do_op(Cmd *c) {
     int s = (int)kv_u64(c, "o", 0); if (s < 0 || s >= NSLOT) s = 0;
-    cbs_reset();
+    cbs_reset(); tie_slot = -1;
     if ((is_op(c, "new") || is_op(c, "new_default")) && !strcmp(kv_str(c, "obs", ""), "sparse")) sparse = 1;
     if (is_op(c, "new")) {
         CC_ArraySizedConf conf; conf_fill(&conf, c);
@@ -304,7 +335,9 @@ static void do_op(Cmd *c) {
         cc_array_sized_reduce(a, red_sum, r); o("st=- out=%s cb=[%s]", dec(r, dl), cbs); __real_free(r);
     } else if (is_op(c, "sort")) {
         const char *cm = kv_str(c, "cmp", "asc");
-        cc_array_sized_sort(a, !strcmp(cm, "desc") ? cmp_desc : !strcmp(cm, "m10") ? cmp_m10 : cmp_asc); o("st=-");
+        if (!strcmp(cm, "k10")) tie_slot = s;
+        cc_array_sized_sort(a, !strcmp(cm, "desc") ? cmp_desc : !strcmp(cm, "m10") ? cmp_m10 :
+                               !strcmp(cm, "k10") ? cmp_k10 : cmp_asc); o("st=-");
     } else if (is_op(c, "foreach")) {
         CC_ARRAY_SIZED_FOREACH(v, a, { cbs_add(dec(v, dl)); })
         o("st=- cb=[%s]", cbs);
